@@ -270,15 +270,15 @@ func shapes(r *engine.Rec) {
 	}
 	// keys of every leaf kind (nil included) in Catalogs and Maps of one to three associations
 	keySets := map[string][]any{
-		"nil first":    {nil, "a", int64(2)},
-		"nil last":     {"a", int64(2), nil},
-		"booleans":     {true, false},
-		"runes":        {'b', 'a', 'c'},
-		"floats":       {1.5, -2.5, 0.0},
-		"strings":      {"", "b", "a"},
-		"mixed":        {int64(1), "1", '1'},
-		"unsigned":     {uint64(7), uint64(0)},
-		"complex":      {complex(1, 2), complex(0, -1)},
+		"nil first": {nil, "a", int64(2)},
+		"nil last":  {"a", int64(2), nil},
+		"booleans":  {true, false},
+		"runes":     {'b', 'a', 'c'},
+		"floats":    {1.5, -2.5, 0.0},
+		"strings":   {"", "b", "a"},
+		"mixed":     {int64(1), "1", '1'},
+		"unsigned":  {uint64(7), uint64(0)},
+		"complex":   {complex(1, 2), complex(0, -1)},
 	}
 	for kname, ks := range keySets {
 		for size := 1; size <= len(ks); size++ {
